@@ -7,7 +7,9 @@ from . import common as C
 
 ID = "C05"
 ASSUMPTIONS = [
-    "durations are arbitrary integers >= 0 (z3 Int); no ready-operations filter installed (available = ready)",
+    "durations are arbitrary integers >= 0 (z3 Int); without filter available = ready; in the filtered sub-spaces 'available' is what "
+    "the real filter keeps of a pristine ready list on a replica (filter correctness is C07) and the current time is the minimum start "
+    "over it; all other queries keep their filter-independent meaning",
     "query sequences: every single query, every ordered pair of the 16 queries issued on a dispatcher that reached the "
     "state by replaying the history (quick, thorough), every pair split across a dispatch and every ordered triple on the "
     "smaller shapes (thorough); plus all queries in every earlier state of the main dispatcher (staleness)",
@@ -39,7 +41,12 @@ def subspaces(tier):
         out += C.structure_subspaces(D.shapes(3, 3) + [(2, 2)], 2, False, mode="pairs")
         out += C.structure_subspaces(D.shapes(2, 2), 2, True, only_flexible=True, mode="pairs")
         out += C.structure_subspaces(D.shapes(2, 3), 2, False, mode="reset")
+        for f in ("dominated", "non_idle", "non_immediate_machines", "non_immediate_ops"):
+            out += C.structure_subspaces(D.shapes(3, 3), 2, False, canonical=True, mode="pairs", filter=f)
     else:
+        for f in ("dominated", "non_idle", "non_immediate_machines", "non_immediate_ops", "default_pair"):
+            out += C.structure_subspaces(D.shapes(3, 3) + [(2, 2)], 2, False, mode="pairs", filter=f)
+            out += C.structure_subspaces(D.shapes(2, 2), 2, True, only_flexible=True, mode="pairs", filter=f)
         out += C.structure_subspaces(D.shapes(3, 4), 2, False, mode="reset")
         out += C.structure_subspaces(D.shapes(3, 4), 2, False, mode="pairs")
         out += C.structure_subspaces(D.shapes(3, 3), 2, True, only_flexible=True, mode="pairs")
@@ -91,7 +98,8 @@ def check(eng, q, res, desc, spec, ctx):
     """Compare a result with the independent recomputation. ctx = key prefix."""
     key = f"C05/{q}/{ctx}"
     sched, unsched, ready = spec.scheduled_ops(), spec.unscheduled_ops(), spec.ready_ops()
-    now = spec.now()
+    avail = spec.available() if hasattr(spec, "available") else ready
+    now = spec.min_start(avail)
 
     def set_eq(ids, expected, what):
         if len(set(ids)) != len(ids):
@@ -103,16 +111,18 @@ def check(eng, q, res, desc, spec, ctx):
 
     if q == "current_time":
         eng.prove(veq(res, now), key)
-    elif q in ("available_operations", "raw_ready_operations"):
+    elif q == "available_operations":
+        set_eq(_ids(res), avail, "wrong-set")
+    elif q == "raw_ready_operations":
         set_eq(_ids(res), ready, "wrong-set")
     elif q == "unscheduled_operations":
         set_eq(_ids(res), unsched, "wrong-set")
     elif q == "scheduled_operations":
         set_eq(_ids(res), sched, "wrong-set")
     elif q == "available_machines":
-        set_eq(list(res), sorted({m for o in ready for m in desc.machines[o]}), "wrong-set")
+        set_eq(list(res), sorted({m for o in avail for m in desc.machines[o]}), "wrong-set")
     elif q == "available_jobs":
-        set_eq(list(res), sorted({desc.job_of[o] for o in ready}), "wrong-set")
+        set_eq(list(res), sorted({desc.job_of[o] for o in avail}), "wrong-set")
     elif q in ("completed_operations", "uncompleted_operations", "ongoing_operations"):
         if q == "ongoing_operations":
             ids = [s.operation.operation_id for s in res]
@@ -172,11 +182,11 @@ def check(eng, q, res, desc, spec, ctx):
             eng.prove(True, key)
 
 
-def replica(inst, spec):
+def replica(inst, spec, filt=None):
     """A dispatcher brought to the current state through the public API only."""
     from job_shop_lib.dispatching import Dispatcher, UnscheduledOperationsObserver
 
-    d = Dispatcher(inst)
+    d = Dispatcher(inst, ready_operations_filter=C.make_filter(filt) if filt else None)
     obs = UnscheduledOperationsObserver(d)
     for op, m in spec.history:
         d.dispatch(D.op_by_id(inst, op), m)
@@ -197,9 +207,27 @@ def harness(eng, sp):
     from job_shop_lib.dispatching import Dispatcher, UnscheduledOperationsObserver
 
     inst, desc = D.build_instance(eng, sp["shape"], sp["machines"], dmin=0)
-    main = Dispatcher(inst)
+    filt = sp.get("filter")
+    main = Dispatcher(inst, ready_operations_filter=C.make_filter(filt) if filt else None)
     main_obs = UnscheduledOperationsObserver(main)
     spec = Spec(desc)
+    if filt:
+        # with a filter installed 'available' is what the real filter keeps of a pristine ready list on a replica
+        # (filter correctness is C07); every other query keeps its filter-independent meaning
+        def avail_of(sp_):
+            rep, _ = replica(inst, sp_, None)
+            f = C.make_filter(filt)
+            return [o.operation_id for o in f(rep, [D.op_by_id(inst, o) for o in sp_.ready_ops()])]
+
+        cache = {}
+
+        def available():
+            k = len(spec.history)
+            if k not in cache:
+                cache[k] = avail_of(spec)
+            return cache[k]
+
+        spec.available = available
     mode = sp["mode"]
     nq = len(QUERIES)
     prev_spec = None
@@ -229,7 +257,7 @@ def harness(eng, sp):
         if mode == "pairs":
             for q1 in QUERIES:
                 for q2 in QUERIES:
-                    d, obs = replica(inst, spec)
+                    d, obs = replica(inst, spec, filt)
                     ok, r1 = _safe(eng, q1, "first", lambda: ask(q1, d, obs, inst, desc, spec))
                     if not ok:
                         continue
